@@ -297,6 +297,145 @@ def verdicts(line, n):
     return "".join(v.get(i, "?") for i in range(n)), int(m.group(2))
 
 
+# ---------------------------------------------------------------- externals in the positions where the compiler treats constants specially
+# Every template uses the integer external n (id 1) and/or the boolean external b (id 2) in a position in which a
+# CONSTANT is folded, range-checked or used to decide whether the rule needs string matches: quantifier of
+# `of` / `of .. in` / `of .. at` / `for .. of` / `for .. in`, percentage, `at` / `in` offsets and range bounds,
+# shift counts, divisors, array indexes, intXX() offsets.  {N} / {B} are replaced by the variable name (external
+# form) or by a literal of a value (twin).  All twins that compile live in the SAME rule set as the external
+# form; in every scan the verdict of the external form must equal that of the twin for the value in force.
+# (string identifiers start with _ so that a template may leave some of them unreferenced)
+POS_STR = 'strings: $_a = "abc" $_b = "xyz" $_c = "qq" condition: '
+POS_TEMPLATES = [
+    "{N} of them", "{N} of them in (0..5)", "{N} of them in (2..40)", "{N} of them at 3", "{N} of ($_a, $_b)",
+    "{N} of ($_a*) in (0..{N} + 8)", "for {N} of them : ($)", "for {N} of them : (@ > 2)", "for {N} i in (0..3) : (i >= 0)",
+    "for {N} i in ({N}..{N} + 2) : (i == {N})", "({N} * 25)% of them", "$_a at {N}", "$_a at {N} + 2", "$_a in ({N}..{N} + 10)",
+    "$_a in (0..{N})", "#_a in ({N}..30) > 0", "any of them in ({N}..{N} + 4)", "all of them in (0..{N} + 60)",
+    "(1 << {N}) == 2", "(16 >> {N}) == 8", "(10 \\ {N}) == 10", "(10 % {N}) == 0", "@_a[{N}] >= 0", "!_a[{N}] == 3",
+    "uint8({N}) == 0x62", "int16({N} + 1) == 0x6362", "{N} of them in (0..5) and $_a", "{N} of them in (0..5) or {N} of them at 7",
+    "not {N} of them in (0..5)", "{B} of them", "{B} of them in (0..5)", "for {B} of them : ($)", "$_a at {B}", "$_a in ({B}..9)",
+    "(4 >> {B}) == 2", "{B} of them in (0..5) and {N} of them in (0..9)",
+]
+POS_N = [0, 1, 2, 3, -1]
+POS_B = [0, 1]
+POS_BUFS = [b"nothing to see, move along", b"..abc.. and some more text", b"abc xyz qq", b"qq.abc", b"zabcxyz qq abc"]
+
+
+def pos_lit(v):
+    return str(v) if v >= 0 else "(-%d)" % -v
+
+
+def pos_family(chk, h, model):
+    """returns (evaluations, agreeing comparisons)"""
+    # 1. which forms compile at all (a literal can be rejected where the external is not: negative counts, x / 0 ...)
+    forms = []      # (rule name, template index, n value or None, b value or None, condition)
+    for ti, t in enumerate(POS_TEMPLATES):
+        forms.append(("e%d" % ti, ti, None, None, t.replace("{N}", "n").replace("{B}", "b")))
+        ns = POS_N if "{N}" in t else [None]
+        bs = POS_B if "{B}" in t else [None]
+        for nv in ns:
+            for bv in bs:
+                c = t
+                if nv is not None:
+                    c = c.replace("{N}", pos_lit(nv))
+                if bv is not None:
+                    c = c.replace("{B}", pos_lit(bv))
+                forms.append(("t%d_%s_%s" % (ti, "x" if nv is None else str(nv).replace("-", "m"), "x" if bv is None else bv), ti, nv, bv, c))
+    pre = [(f[0], ["newcompiler", "defi n 0", "defb b 0", "add " + hx(("rule %s { %s%s }" % (f[0], POS_STR, f[4])).encode()), "getrules"]) for f in forms]
+    out, _ = vlib.run_cases(h, pre)
+    good = [f for f in forms if any(l == "getrules rc=0" for l in out.get(f[0], []))]
+    ext_ok = {f[1] for f in good if f[0].startswith("e")}
+    good = [f for f in good if f[1] in ext_ok]
+    twin = {(f[1], f[2], f[3]): f[0] for f in good if not f[0].startswith("e")}
+    src = "\n".join("rule %s { %s%s }" % (f[0], POS_STR, f[4]) for f in good)
+    chk.note(position_templates=len(POS_TEMPLATES), position_templates_compiling=len(ext_ok), position_literal_twins=len(twin))
+    # 2. histories: the value in force comes from each of the three levels
+    nh = 4 if chk.tier == "quick" else 24
+    cases = []
+    for j in range(nh):
+        r = chk.rng.fork()
+        n0, b0 = (0, 0) if j == 0 else (r.choice(POS_N), r.choice(POS_B))
+        ops = [("cd:1:i%d" % n0, ["defi n %d" % n0]), ("cd:2:b%d" % b0, ["defb b %d" % b0]),
+               ("gr", ["add " + hx(src.encode()), "getrules"])]
+
+        def scans(slot):
+            for buf in POS_BUFS:
+                if slot is None:
+                    ops.append(("rs", ["rscan 0 0 " + hx(buf)]))
+                else:
+                    ops.append(("sc:%d" % slot, ["sel %d" % slot, "scan " + hx(buf)]))
+        scans(None)                                   # compile-time values
+        ops.append(("cr:0", ["scanner 0"]))
+        for step in range(3 if chk.tier == "quick" else 6):
+            lvl = r.choice("rrss")
+            if r.chance(2, 3):
+                v = r.choice(POS_N) if not (j == 1 and step == 0) else 0
+                tok, line = ("i%d" % v, "defi n %d" % v)
+                x = 1
+            else:
+                v = r.choice(POS_B)
+                # scanner level accepts both functions for both variables; rules level needs the declared one
+                tok, line = ("b%d" % v, "defb b %d" % v)
+                x = 2
+            if lvl == "r":
+                ops.append(("rd:%d:%s" % (x, tok), ["r" + line]))
+                scans(None)                           # yr_rules_scan_mem sees it ...
+                scans(0)                              # ... the existing scanner does not
+                if step == 0:
+                    ops.append(("cr:1", ["scanner 1"]))
+                    scans(1)
+            else:
+                ops.append(("sd:0:%d:%s" % (x, tok), ["sel 0", "s" + line]))
+                scans(0)
+                scans(None)
+        cases.append(("pos%d" % j, ops))
+    hcases = [(cid, ["newcompiler", "strings 0"] + [l for _, hl in ops for l in hl]) for cid, ops in cases]
+    out, _ = vlib.run_cases(h, hcases, timeout=1500)
+    mlines, _ = vlib.run_lines(model, ["c20 " + " ".join(t for t, _ in ops) + " | " for _, ops in cases])
+    evals = agree = 0
+    by_rule = {f[0]: f for f in good}
+    for (cid, ops), ml in zip(cases, mlines):
+        toks = ml.split(" ; ")
+        lines = [l for l in out.get(cid, []) if l.startswith("scan msgs=") or l.startswith("crash")]
+        replay = {"case": cid, "harness_lines": dict(hcases)[cid], "model": ml[:2000], "rules": src,
+                  "how": "feed 'case x' + harness_lines + 'endcase' to the h_hist binary"}
+        if len(toks) != len(ops):
+            chk.violation("model-runner", "model runner failed on %s: %s" % (cid, ml[:300]), replay, found_input=False)
+            continue
+        si = 0
+        for (tok, hl), mt in zip(ops, toks):
+            if not tok.startswith(("sc", "rs")):
+                continue
+            if si >= len(lines) or lines[si].startswith("crash") or not mt.startswith("seen"):
+                chk.violation("crash-positions", "%s: no scan result at '%s': %s / model %s" % (cid, tok, lines[si:si + 1], mt[:80]), replay)
+                break
+            env, _, _ = parse_seen(mt)
+            m = re.match(r"scan msgs=(\S*) rc=(-?\d+)", lines[si])
+            si += 1
+            verdict = {}
+            for t in m.group(1).split(";"):
+                p = t.split(":")
+                if len(p) >= 3 and p[0] in "MN":
+                    verdict[p[2]] = p[0]
+            nv, bv = env[1][1], env[2][1]
+            for name, f in by_rule.items():
+                if not name.startswith("e"):
+                    continue
+                t = POS_TEMPLATES[f[1]]
+                tw = twin.get((f[1], nv if "{N}" in t else None, bv if "{B}" in t else None))
+                if tw is None:
+                    continue
+                evals += 1
+                if verdict.get(name) != verdict.get(tw):
+                    chk.violation("external-vs-literal:" + t, "%s: with n=%d b=%d in force (%s), buffer %r: 'condition: %s' is %s but the same condition "
+                                  "with the literal, '%s', is %s" % (cid, nv, bv, tok, vlib.unhx(hl[-1].split()[-1]), f[4], verdict.get(name),
+                                                                      by_rule[tw][4], verdict.get(tw)),
+                                  dict(replay, scan=hl, external_rule=name, literal_rule=tw))
+                else:
+                    agree += 1
+    return evals, agree
+
+
 def run(chk):
     ok, log, st = vlib.proof_obligations(chk, PROPS)
     if not ok:
@@ -444,6 +583,9 @@ def run(chk):
                            "rules": [c_text(x, None) for x in c["conds"]], "impl": res[:6]})
         else:
             tw_ok += 1
+    pe, pa = pos_family(chk, h, model)
+    evals += pe
+    chk.note(position_twin_comparisons=pe, position_twin_agree=pa)
     chk.note(evaluations=evals, distinct_nontrivial=len(nontriv), traces_validated_against_impl=agree, literal_twins_agree=tw_ok,
              op_kinds=opkinds, histories=len(cases),
              rule="random histories: 2-5 variables of the four types, compile-time defines (with duplicates), 4-8 probe rules over "
